@@ -231,10 +231,28 @@ func (v *Verifier) evalSpec(env *Env, e SExpr) Val {
 			}
 		}
 		body := v.evalBool(ne, x.Body)
-		if x.Forall {
-			return Val{K: KBool, A: "(forall (" + strings.Join(binders, " ") + ") " + implies(and(ranges...), body) + ")"}
+		pat := ""
+		if len(x.Pats) > 0 {
+			var ps []string
+			for _, pe := range x.Pats {
+				pv := v.evalSpec(ne, pe)
+				ts, _ := flattenVal(pv)
+				ps = append(ps, ts...)
+			}
+			pat = " :pattern (" + strings.Join(ps, " ") + ")"
 		}
-		return Val{K: KBool, A: "(exists (" + strings.Join(binders, " ") + ") " + and(append(ranges, body)...) + ")"}
+		if x.Forall {
+			b := implies(and(ranges...), body)
+			if pat != "" {
+				b = "(! " + b + pat + ")"
+			}
+			return Val{K: KBool, A: "(forall (" + strings.Join(binders, " ") + ") " + b + ")"}
+		}
+		b := and(append(ranges, body)...)
+		if pat != "" {
+			b = "(! " + b + pat + ")"
+		}
+		return Val{K: KBool, A: "(exists (" + strings.Join(binders, " ") + ") " + b + ")"}
 	}
 	encFail("spec: cannot evaluate %s", e)
 	return Val{}
@@ -321,6 +339,17 @@ func (v *Verifier) localName(env *Env, name string) (Val, bool) {
 					pv = fr.vals[phi]
 				}
 				return Val{K: KInt, T: phi.Type(), A: add(pv.A, "1")}, true
+			}
+		}
+	}
+	// a source variable that *is* a header phi (e.g. range-over-int iterator)
+	for _, d := range refs {
+		if phi, ok := d.X.(*ssa.Phi); ok && phi.Block() == env.at && d.Block() == env.at {
+			if sv, ok := env.phiSubst[phi]; ok {
+				return sv, true
+			}
+			if val, ok := fr.vals[phi]; ok {
+				return val, true
 			}
 		}
 	}
